@@ -102,7 +102,7 @@ fn divmod(x: &BigUint, d: u64) -> (BigUint, u64) {
     (x / &dd, (x % &dd).to_u64().expect("harness: remainder < 2^64"))
 }
 
-fn reciprocal_case<const N: usize>(t: &mut Tape, c: &mut Case) -> CaseResult {
+pub(crate) fn reciprocal_case<const N: usize>(t: &mut Tape, c: &mut Case) -> CaseResult {
     let d1 = divisor(t);
     let d2 = match t.weighted(&[2, 2, 2, 1, 1]) {
         0 => divisor(t),
